@@ -53,21 +53,107 @@ def push_wrapper(sid, fn, tmpl, callee):
                 pre_subst=[(r'do_try_push<%s>\(std::forward<Args>\(args\)\.\.\.\)' % tmpl, callee + '(self, args)', 'forward')],
                 must_fire={'subst:forward': 1})
 
+
+QUICK = [2, 4, 8]; THOROUGH = [16, 32]
+RUNS = []
+def add(rid, entry, n, tier, **kw):
+    d = dict(id='%s_n%d' % (rid, n), entry=entry, tiers=[tier] if tier == 'thorough' else ['quick', 'thorough'], cls='shape-complete')
+    d.update(kw); defs = dict(kw.get('defs', {})); defs['N'] = n; d['defs'] = defs
+    RUNS.append(d)
+for n, tier in [(x, 'quick') for x in QUICK] + [(x, 'thorough') for x in THOROUGH]:
+    # SEQ: any Inv_V state (deq: any 64-bit value, count 0..N, values arbitrary); strong ops: original loop, 2 iterations + unwinding assertion
+    add('push_s', 'h_push_strong', n, tier, unwindset=['vbq_do_try_push_s.0:2'], note='original retry loop, complete at 1 iteration (unwinding assertion)')
+    add('pop_s', 'h_pop_strong', n, tier, unwindset=['vbq_do_try_pop_s.0:2'], note='original retry loop, complete at 1 iteration (unwinding assertion)')
+    add('push_w', 'h_push_weak', n, tier, note='retry loop cut by invariant PUSH (partial correctness); termination is the SOLO run')
+    add('pop_w', 'h_pop_weak', n, tier, note='retry loop cut by invariant POP')
+    add('dtor', 'h_dtor', n, tier, unwind=n + 1, note='destructor loop runs count <= N times')
+    add('ctor', 'h_ctor', n, tier, unwind=n + 1)
+    add('solo_push_w', 'h_solo_push_weak', n, tier, mode='SOLO', defs={'XV_SOLO': 1}, unwindset=['vbq_do_try_push_w.0:2'], unwind_obligation='vbq.weak.terminates')
+    add('solo_pop_w', 'h_solo_pop_weak', n, tier, mode='SOLO', defs={'XV_SOLO': 1}, unwindset=['vbq_do_try_pop_w.0:2'], unwind_obligation='vbq.weak.terminates')
+for n in QUICK:
+    if n == 8: continue
+    for m in (0, 1):
+        for op in ('push_strong', 'push_weak', 'pop_strong', 'pop_weak'):
+            if m == 1 and 'weak' in op: continue
+            add('%s_int%d' % (op.replace('_strong', '_s').replace('_weak', '_w'), m), 'h_%s_int' % op, n, 'quick', mode='INT', defs={'ENV_MODE': m},
+                note='retry loop cut; environment: ' + ('positions only advance, occupancy stays within 0..N, sequences arbitrary' if m else 'anything'))
+RUNS.append(dict(id='lambdas', entry='h_lambdas', cls='unbounded', defs={'N': 2}))
+add('push_d', 'h_push_default', 4, 'quick', unwindset=['vbq_do_try_push_s.0:2'], note='try_push with the default policy')
+add('pop_d', 'h_pop_default', 4, 'quick', unwindset=['vbq_do_try_pop_s.0:2'], note='try_pop with the default policy')
+
+OBLS = {
+  'vbq.push_strong.full_iff': dict(deciding=True, text='[SEQ] try_push_strong fails iff enq-deq == N, and then positions and every cell are unchanged'),
+  'vbq.pop_strong.empty_iff': dict(deciding=True, text='[SEQ] try_pop_strong fails iff enq == deq, and then positions, every cell and the result variable are unchanged'),
+  'vbq.fifo': dict(deciding=True, text='[SEQ] a successful push stores its value at position enq (cell enq&mask, sequence enq+1) and advances enq by one; a successful pop returns the value stored at position deq, advances deq by one and frees the cell for position deq+N; no other cell changes'),
+  'vbq.inv.preserved': dict(deciding=True, text='[SEQ] Inv_V (0 <= enq-deq <= N mod 2^64; cell of p has seq p+1 and a live T for p in [deq,enq), seq p and no T for p in [enq,deq+N)) holds after every operation, for all 64-bit positions'),
+  'vbq.weak.no_wrong_success': dict(deciding=True, text='[SEQ+INT, spurious CAS failure allowed] a weak operation that fails has changed nothing (no CAS succeeded, no store, no construction/destruction, argument/result untouched); one that succeeds has the effect of the strong operation; it never succeeds on a full (push) / empty (pop) queue'),
+  'vbq.weak.seq_no_spurious': dict(deciding=False, text='[SEQ] without pending operations the weak variants fail only when full / empty (documentation of try_push_weak / try_pop_weak)'),
+  'vbq.weak.terminates': dict(deciding=True, text='[SOLO] try_push_weak / try_pop_weak (documented lock-free) return after at most one loop iteration from every mid-operation state when running alone, for all 64-bit positions'),
+  'vbq.dtor.owns': dict(deciding=True, text='[SEQ] the destructor destroys exactly the objects of positions [deq,enq), each once, and nothing else'),
+  'vbq.ctor.establishes': dict(deciding=True, text='the constructor allocates size cells and establishes Inv_V with deq = enq = 0 without constructing any T'),
+  'vbq.cell.lifetime': dict(deciding=True, text='[SEQ] placement new only into storage holding no T, reinterpret_cast<T&> / ~T only on storage holding a live T (no double construction, no double destruction, no read of dead storage)'),
+  'vbq.push.accepted_owned': dict(deciding=True, text='[SEQ] a successful push move-constructs exactly one T, from the caller\'s argument, into the cell of position enq'),
+  'vbq.push.rejected_stays_with_caller': dict(deciding=True, text='[SEQ] a failed push does not touch the caller\'s argument and constructs nothing'),
+  'vbq.pop.destroys_once': dict(deciding=True, text='[SEQ] a successful pop reads the cell of position deq once, destroys its T exactly once, before releasing the cell'),
+  'vbq.pop.lambda_contract': dict(deciding=True, text='the success lambda of try_pop* moves the cell value into the caller\'s result and returns true; the empty lambda returns false'),
+  'vbq.push.commit': dict(deciding=True, text='[INT, arbitrary environment] push returns true only after exactly one successful CAS of enqueue_pos from p to p+1 where p is the value the immediately preceding acquire-load of cell p&mask\'s sequence returned; then it constructs in that cell and release-stores p+1 to its sequence, in this order; returns false only without any write'),
+  'vbq.pop.commit': dict(deciding=True, text='[INT, arbitrary environment] pop returns true only after exactly one successful CAS of dequeue_pos from p to p+1 where the immediately preceding load of cell p&mask\'s sequence returned p+1; the result is read from that cell, its T destroyed once, then p+N is release-stored to its sequence; returns false only without any write'),
+  'vbq.push_strong.full_instant': dict(deciding=True, text='[INT, monotone rely] when try_push_strong returns false, enq-deq == N held at the instant of its last dequeue_pos load'),
+  'vbq.pop_strong.empty_instant': dict(deciding=True, text='[INT, monotone rely] when try_pop_strong returns false, enq == deq held at the instant of its last enqueue_pos load'),
+  'vbq.sync.cell_sequence': dict(deciding=True, text='sync precondition: every load of a cell sequence in push/pop is acquire-or-stronger, the publishing store is release-or-stronger and comes after the construction / destruction of the value'),
+}
+LOOP_OBL = {'PUSH': 'vbq.push.commit', 'POP': 'vbq.pop.commit'}
+REPLAYS = {k: dict(src='replay_vbq.cpp') for k in ['vbq.push_strong.full_iff', 'vbq.pop_strong.empty_iff', 'vbq.fifo', 'vbq.inv.preserved', 'vbq.weak.no_wrong_success',
+           'vbq.weak.seq_no_spurious', 'vbq.weak.terminates', 'vbq.dtor.owns', 'vbq.cell.lifetime', 'vbq.push.accepted_owned', 'vbq.push.rejected_stays_with_caller', 'vbq.pop.destroys_once']}
+CANARIES = []
+for t in ('push_s', 'push_w', 'push_d'): CANARIES += [t + x for x in ('.full', '.ok', '.ok_wrap', '.ok_becomes_full')]
+for t in ('pop_s', 'pop_w', 'pop_d'): CANARIES += [t + x for x in ('.empty', '.ok', '.ok_wrap', '.ok_from_full')]
+CANARIES += ['push_s.full_wrapped', 'push_d.full_wrapped', 'pop_s.empty_at_max', 'pop_d.empty_at_max']
+for t in ('push_s', 'push_w', 'pop_s', 'pop_w'): CANARIES += [t + '.int_ok', t + '.int_fail']
+CANARIES += ['lambdas.default', 'ctor.done', 'dtor.destroyed', 'dtor.skipped', 'dtor.full', 'dtor.empty', 'dtor.wrapped', 'solo_push_w.ok', 'solo_push_w.fail', 'solo_pop_w.ok', 'solo_pop_w.fail']
 UNIT = dict(
   title='vyukov_bounded_queue: ring of N cells with per-cell sequence numbers (C05 vyukov half, C07 ownership)',
   properties=['C05', 'C07'],
   drops='templates: T is an opaque 64-bit word, storage_t carries the ghost alive flag; Weak is substituted per instantiation (0/1); '
-        'the forwarded parameter pack is one T&& (pointer to the caller\'s object); the two lambdas of try_pop_strong/try_pop_weak are '
-        'extracted as separate functions (closure conversion: [&result] -> parameter) and do_try_pop is lowered once per call site; '
-        'placement new / ~T are the primitives XV_PLACEMENT_NEW_MOVE / XV_DESTROY_T (ghost lifetime checks); unique_ptr<cell[]> is an array of N cells; '
-        'std::atomic is the sequentially consistent cell model of xv.h; pop()/pop_strong()/pop_weak() (std::optional flavour of the same template) are not lowered',
-  assumptions=['INT rely (full/empty instant): other threads only advance enqueue_pos/dequeue_pos, by less than 2^63 in total during one call, and keep 0 <= enq-deq <= N (their guarantee is vbq.inv.preserved in SEQ); cell sequences are arbitrary',
-               'the lifetime/ownership obligations are sequential (SEQ); under interference they rest on the commit obligations plus the composition lemma of DESIGN.md'],
+        'the forwarded parameter pack is one T&& (pointer to the caller\'s object); the two lambdas of try_pop/try_pop_strong/try_pop_weak are '
+        'extracted as separate functions (closure conversion: [&result] -> parameter) and do_try_pop is lowered once per Weak value; '
+        'placement new / reinterpret_cast<T&> / ~T are the primitives XV_PLACEMENT_NEW_MOVE / XV_DATA_AS_T / XV_DESTROY_T (ghost lifetime checks); '
+        'unique_ptr<cell[]> is an array of N cells; std::atomic is the sequentially consistent cell model of xv.h; '
+        'pop()/pop_strong()/pop_weak() (std::optional flavour of the same template) and the const T& / emplace overloads of assign_value are not lowered',
+  assumptions=['INT rely for vbq.*_strong.*_instant: other threads only advance enqueue_pos/dequeue_pos, by less than 2^63 in total during one call, and keep 0 <= enq-deq <= N '
+               '(their guarantee is vbq.inv.preserved + vbq.fifo in SEQ); cell sequences are arbitrary',
+               'the lifetime/ownership obligations are sequential (SEQ); under interference they rest on the commit obligations plus the composition lemma of DESIGN.md',
+               'SOLO: the mid-operation states are Inv_V with any subset of claimed-but-unpublished pushes (seq = p) and claimed-but-unreleased pops (seq = p-N+1)'],
+  consts=[dict(name='XV_DEFAULT_TO_WEAK', file=F, regex=r'parameter::value_param_t<bool, policy::default_to_weak, (\w+), Policies\.\.\.>::value', subst=[('false', '0'), ('true', '1')])],
   sources=[
+    dict(id='assign_value', file=F, sig=r'void assign_value\(storage_t& v, T&& source\)',
+         c_sig='static void vbq_assign_value(struct vbq* self, storage_t* v_p, value* source_p)',
+         pre_subst=[(r'new \(&v\) T\(std::move\(source\)\);', 'XV_PLACEMENT_NEW_MOVE(&(v), &(source));', 'placement_new')],
+         subst=[(r'\bv\b', '(*v_p)', 'v_ref'), (r'\bsource\b', '(*source_p)', 'source_ref')],
+         must_fire={'subst:placement_new': 1, 'subst:v_ref': 1, 'subst:source_ref': 1}),
     push_src('do_try_push_s', 0, 0), push_src('do_try_push_s_cut', 0, 1),
     push_src('do_try_push_w', 1, 0), push_src('do_try_push_w_cut', 1, 1),
+    lambda_success('tps_success', 'try_pop_strong', 'vbq_tps_success'), lambda_empty('tps_empty', 'try_pop_strong', 'vbq_tps_empty'),
+    lambda_success('tpw_success', 'try_pop_weak', 'vbq_tpw_success'), lambda_empty('tpw_empty', 'try_pop_weak', 'vbq_tpw_empty'),
+    lambda_success('tpd_success', 'try_pop', 'vbq_tpd_success'), lambda_empty('tpd_empty', 'try_pop', 'vbq_tpd_empty'),
     pop_src('do_try_pop_s', 0, 0), pop_src('do_try_pop_s_cut', 0, 1),
     pop_src('do_try_pop_w', 1, 0), pop_src('do_try_pop_w_cut', 1, 1),
+    push_wrapper('try_push_strong', 'try_push_strong', 'false', 'DO_PUSH_S'),
+    push_wrapper('try_push_weak', 'try_push_weak', 'true', 'DO_PUSH_W'),
+    push_wrapper('try_push', 'try_push', 'default_to_weak', 'DO_PUSH_DEFAULT'),
+    pop_wrapper('try_pop_strong', 'try_pop_strong', 'false', 'DO_POP_S'),
+    pop_wrapper('try_pop_weak', 'try_pop_weak', 'true', 'DO_POP_W'),
+    pop_wrapper('try_pop', 'try_pop', 'default_to_weak', 'DO_POP_DEFAULT'),
+    dict(id='ctor', file=F, sig=r'vyukov_bounded_queue<T, Policies\.\.\.>::vyukov_bounded_queue\(std::size_t size\)', ctor=True,
+         c_sig='static void vbq_ctor(struct vbq* self, size_t size)', members=MEM,
+         subst=[(r'utils::', '', 'utils')],
+         post_subst=[(r'XV_INIT_cells\(self, new cell\[size\]\)', 'XV_NEW_CELLS(self, size)', 'new_cells')],
+         must_fire={'ctor_init': 2, 'subst:new_cells': 1, 'subst:utils': 1, 'A_STORE': 3, 'member:cells': 1}),
+    dict(id='dtor', file=F, sig=r'vyukov_bounded_queue<T, Policies\.\.\.>::~vyukov_bounded_queue\(\)',
+         c_sig='static void vbq_dtor(struct vbq* self)', members=MEM,
+         pre_subst=[(r'reinterpret_cast<T&>\(c->data\)', 'XV_DATA_AS_T(c)', 'as_T')],
+         subst=[(r'XV_DATA_AS_T\(c\)\.~T\(\)', 'XV_DESTROY_T(&(XV_DATA_AS_T(c)))', 'dtor_T')],
+         must_fire={'subst:as_T': 1, 'subst:dtor_T': 1, 'A_LOAD': 3, 'member:cells': 1, 'member:index_mask': 1}),
   ],
-  runs=[], obligations={}, canaries=[],
+  runs=RUNS, obligations=OBLS, loop_obligation=LOOP_OBL, replays=REPLAYS, canaries=CANARIES,
 )
